@@ -2,12 +2,12 @@ from collections.abc import Sequence
 from dataclasses import dataclass
 
 from xdsl.context import Context
-from xdsl.dialects import builtin, scf
+from xdsl.dialects import arith, builtin, scf
 from xdsl.dialects.builtin import IndexType, MemRefType
 from xdsl.dialects.linalg import GenericOp
 from xdsl.dialects.memref import CopyOp
 from xdsl.dialects.scf import ForOp
-from xdsl.ir import Block, Operation, Region, SSAValue
+from xdsl.ir import Block, Operation, OpResult, Region, SSAValue
 from xdsl.irdl import Operand
 from xdsl.passes import ModulePass
 from xdsl.pattern_rewriter import (
@@ -23,6 +23,15 @@ from snaxc.dialects.dart import StreamingRegionOpBase
 from snaxc.dialects.pipeline import IndexOp, PipelineOp, StageOp, YieldOp
 from snaxc.dialects.snax import ClusterSyncOp
 from snaxc.util.dispatching_rules import dispatch_to_compute, dispatch_to_dm
+
+
+def get_constant_index(value: SSAValue) -> int | None:
+    """Returns the value of an index constant, or None if the value is not defined by a constant."""
+    if not isinstance(value, OpResult) or not isinstance(value.op, arith.ConstantOp):
+        return None
+    if not isinstance(attr := value.op.value, builtin.IntegerAttr):
+        return None
+    return attr.value.data
 
 
 @dataclass
@@ -51,8 +60,6 @@ class ConstructPipeline(RewritePattern):
 
     @op_type_rewrite_pattern
     def match_and_rewrite(self, op: ForOp, rewriter: PatternRewriter):
-        # TODO: only apply for for loops with lb 0 and step 1
-
         # no nested for loop allowed
         for operation in op.walk():
             if operation is not op and isinstance(operation, ForOp):
@@ -109,6 +116,12 @@ class ConstructPipeline(RewritePattern):
 
         # a valid pipeline has at least two stages
         if len(stages) < 2:
+            return
+
+        # the unrolled pipeline is only correct for loops with lb 0 and step 1, that
+        # run for at least (nb_stages - 1) iterations to fill up the pipeline
+        lb, ub, step = (get_constant_index(x) for x in (op.lb, op.ub, op.step))
+        if lb != 0 or step != 1 or ub is None or ub < len(stages) - 1:
             return
 
         # at this point, the correct pipeline is detected, now we should create the
